@@ -133,8 +133,14 @@ def _gc(keep):
     except OSError:
         return
     ds.sort()
-    for _, d in ds[:-2]:
-        shutil.rmtree(os.path.join(base, d), ignore_errors=True)
+    now = time.time()
+    for _, d in ds[:-40]:
+        shutil.rmtree(os.path.join(base, d), ignore_errors=True)      # hard cap on the number of cached trees
+    for mt, d in ds[-40:-2]:
+        # facts of other trees may be in use by a concurrent run on a scratch copy (development harnesses check several
+        # trees at once): only what has not been touched for a while is collected
+        if now - mt > 3600:
+            shutil.rmtree(os.path.join(base, d), ignore_errors=True)
 
 
 class Facts:
@@ -193,6 +199,11 @@ def load(cfg, crate="sea_query"):
         return _cache[key]
     d = extract(cfg)
     p = os.path.join(d, crate + ".json")
+    if not os.path.exists(p) and crate == "sea_query":
+        # the directory was collected under our feet (see _gc): extract again, once
+        shutil.rmtree(d, ignore_errors=True)
+        d = extract(cfg)
+        p = os.path.join(d, crate + ".json")
     if not os.path.exists(p):
         raise SystemExit("no facts for crate %s in config %s" % (crate, cfg))
     f = Facts(p, cfg, crate)
